@@ -209,27 +209,52 @@ def expiredUpdate (best : Nat) (items : List Item) (exp : AMap.T Nat (List TxId)
       let old := (AMap.get m h).getD []
       AMap.put m h (if old.contains it.tx.id then old else old ++ [it.tx.id])) exp
 
+/-- what a batch reads before it scans: status, balance, cursor, the follower's tip, the range -/
+structure BatchHead where
+  ws : WStatus
+  bal : Nat
+  cur : Nat          -- the cursor as the uint64 the code computes with
+  best : Nat         -- h.bestBlock.Height
+  stop : Nat
+  start : Nat
+  deriving Repr
+
+/-- does the node still have, at `height`, the block the follower is synced to?  (FetchBlockShaByHeight
+    against syncStore.SyncedBlock) -/
+def agrees (c : Ctx) (s : Store) (height : Nat) : Bool :=
+  match c.node.blockAt height, AMap.get s.sync height with
+  | some b, some h => b.id == h
+  | _, _ => false
+
+/-- the head of asyncImport: keystore, status, balance, `stop`, and the followed-chain check -/
+def batchHead (batch : Nat) (c : Ctx) (w : Wid) (s : Store) (v : Vol) : Except ImpErr BatchHead :=
+  if !c.wallets.contains w then .error .noWallet                     -- GetAddrManagerByAccountID
+  else match AMap.get s.status w with
+    | none => .error .other                                          -- GetWalletStatus fails
+    | some ws =>
+      match AMap.get s.balance w with
+      | none => .error .other                                        -- GrossBalance: ErrNotFound
+      | some bal =>
+        -- the node must still have, at the top of the range, the block the follower is synced to
+        if batchStop batch (cursorU64 ws) v.best.height > cursorU64 ws && !agrees c s (batchStop batch (cursorU64 ws) v.best.height)
+        then .error .continuable
+        else .ok ⟨ws, bal, cursorU64 ws, v.best.height, batchStop batch (cursorU64 ws) v.best.height, addU64 (cursorU64 ws) 1⟩
+
+/-- UpdateMinedBalances + PutWalletStatus at the end of the batch transaction -/
+def finishBatch (w : Wid) (hd : BatchHead) (s : Store) (bals : AMap.T Wid Nat) : Store :=
+  let s := { s with balance := bals.foldl (fun (m : AMap.T Wid Nat) (e : Wid × Nat) => AMap.put m e.1 e.2) s.balance }
+  { s with status := AMap.put s.status w (statusAfter hd.ws hd.stop hd.best) }
+
 /-- asyncImport: ONE batch.  `batch` is the literal 1000 of the code (MW.Gen.Handler.importBatch). -/
-def importStep (batch : Nat) (c : Ctx) (w : Wid) (s : Store) (v : Vol) : Except ImpErr (Store × Vol × Bool) := do
-  if !c.wallets.contains w then throw .noWallet               -- GetAddrManagerByAccountID
-  let addrs := managed c.own w
-  let some ws := AMap.get s.status w | throw .other            -- GetWalletStatus
-  let some bal := AMap.get s.balance w | throw .other          -- GrossBalance: ErrNotFound
-  let cur := cursorU64 ws
-  let best := v.best.height
-  let stop := batchStop batch cur best
-  -- the node must still have, at the top of the range, the block the follower is synced to
-  if stop > cur then
-    match c.node.blockAt stop, AMap.get s.sync stop with
-    | some b, some h => if b.id ≠ h then throw .continuable
-    | _, _ => throw .continuable
-  let start := addU64 cur 1
-  let items := plan c.node addrs start stop
-  let (s', bals) ← items.foldlM (applyItem c w) (s, [(w, bal)])
-  let fin : Bool := stop = best
-  let s' := { s' with balance := bals.foldl (fun (m : AMap.T Wid Nat) (e : Wid × Nat) => AMap.put m e.1 e.2) s'.balance }   -- UpdateMinedBalances
-  let s' := { s' with status := AMap.put s'.status w (statusAfter ws stop best) }            -- PutWalletStatus
-  pure (s', { v with expired := expiredUpdate best items v.expired }, fin)
+def importStep (batch : Nat) (c : Ctx) (w : Wid) (s : Store) (v : Vol) : Except ImpErr (Store × Vol × Bool) :=
+  match batchHead batch c w s v with
+  | .error e => .error e
+  | .ok hd =>
+    let items := plan c.node (managed c.own w) hd.start hd.stop
+    match items.foldlM (applyItem c w) (s, [(w, hd.bal)]) with
+    | .error e => .error e
+    | .ok (s', bals) =>
+      .ok (finishBatch w hd s' bals, { v with expired := expiredUpdate hd.best items v.expired }, decide (hd.stop = hd.best))
 
 -- ------------------------------------------------------------------ wallet.go
 
